@@ -220,12 +220,16 @@ class PCAVectorModel(MeanLinearVectorModel):
         # check value
         if isinstance(value, float):
             if 0.0 < value <= self._total_variance_ratio():
-                # value needed to capture desired variance
-                value = (
+                # value needed to capture desired variance. The guard above
+                # guarantees that all the kept components reach the requested
+                # ratio, so never ask for more than that (the cumulative sum
+                # can fall short of its exact value by a rounding error).
+                value = min(
                     np.sum(
                         [r < value for r in self._total_eigenvalues_cumulative_ratio()]
                     )
-                    + 1
+                    + 1,
+                    self.n_components,
                 )
             else:
                 # variance must be bigger than 0.0
